@@ -215,6 +215,9 @@ func (c *ctx) lruOne(cap int, ops []lruOp, toCoq bool) {
 			}
 		}
 		sh := append([]lruOp{}, ops[:n]...)
+		if !canonical(sh) {
+			return // its renaming to first-occurrence order is enumerated too and reported instead
+		}
 		a, b := runRealLRU(cap, sh)
 		x, y := runRefLRU(cap, sh)
 		c.failOnce("lru", "lru:"+lruSig(cap, sh), fmt.Sprintf("duplicate filter of capacity %d after %s: results %v keys %v, a least-recently-used set gives %v %v", cap, lruSig(cap, sh), a, b, x, y),
